@@ -1,5 +1,5 @@
 (* Lemmas about Model/Pass.v (C09). *)
-From Coq Require Import List NArith Lia Bool.
+From Coq Require Import List NArith Lia Bool Sorting.Sorted.
 From Echo Require Import Base.FinMap Base.Order Model.Pass.
 Import ListNotations.
 Open Scope N_scope.
@@ -315,12 +315,12 @@ Proof.
     + intros k' Hn. apply Ho. apply not_in_single. exact Hn.
     + exact Hd.
     + intros w Hn. destruct fo as [f'|]; [|reflexivity].
-      apply find_set_other; [ord|]. cbn in Hn. tauto.
+      apply find_set_other; [ord|]. apply not_in_single. exact Hn.
     + intros w. destruct fo as [f'|]; [|tauto].
       specialize (Ff f' eq_refl). destruct (find N.compare (wl_of k) (fronts (ls_rt st))) as [f|] eqn:E; [|congruence].
       apply (set_other_keys N.compare N_order _ _ f' _ E).
     + intros w Hn. destruct po as [es'|]; [|reflexivity].
-      apply find_set_other; [ord|]. cbn in Hn. tauto.
+      apply find_set_other; [ord|]. apply not_in_single. exact Hn.
     + intros w es Hw. destruct po as [es'|]; [|exists []; rewrite app_nil_r; exact Hw].
       destruct (Fp es' eq_refl) as (es0 & ex & E & ->).
       rewrite (find_set N.compare N_order). destruct (cmp_dec N.compare N_order w (wl_of k)) as [->|Hne].
@@ -332,9 +332,1066 @@ Proof.
     + reflexivity.
     + auto.
     + auto.
-  - unfold st', lsorted, rt_sorted; cbn. repeat split.
+  - unfold st', lsorted, rt_sorted; cbn. split; [split; [|split]|].
     + apply set_sorted; auto; ord.
     + destruct fo; auto. apply set_sorted; auto; ord.
     + exact Hc1.
     + destruct po; auto. apply set_sorted; auto; ord.
+Qed.
+
+Lemma corr_keep (st : lstate S) : lsorted st ->
+  corr_sorted (cor (ls_rt st)) /\ rollback (ls_log st) (cor (ls_rt st)) = rollback (ls_log st) (cor (ls_rt st)) /\
+  witnessed (cor (ls_rt st)) = witnessed (cor (ls_rt st)) /\ staged (cor (ls_rt st)) = staged (cor (ls_rt st)).
+Proof. intros ((_ & _ & H) & _). auto. Qed.
+
+Lemma none_some_absurd {A} (P : A -> Prop) : forall x : A, @None A = Some x -> P x.
+Proof. discriminate. Qed.
+
+(* one loop iteration: whatever happens, only head k, its worldline's frontier and provenance, and
+   logged correlation writes are touched *)
+Lemma pass_step_frame next k (st : lstate S) :
+  lsorted st ->
+  match pass_step S commit next k st with
+  | SCont st' _ | SFail st' _ | SPanic st' => frame [k] st st' /\ lsorted st'
+  | SOuter _ _ => find hkey_cmp k (heads (ls_rt st)) = None
+  end.
+Proof.
+  intros Hs. unfold pass_step.
+  destruct (find hkey_cmp k (heads (ls_rt st))) as [h|] eqn:Fh; [|reflexivity].
+  destruct (admit h) as [batch h'] eqn:A.
+  pose proof (corr_keep st Hs) as Hck.
+  destruct batch as [|b0 brest].
+  { exact (frame_step k st h h' None None _ _ Hs Fh (none_some_absurd _) (none_some_absurd _) Hck). }
+  destruct (find N.compare (wl_of k) (fronts (ls_rt st))) as [f|] eqn:Ff.
+  2:{ exact (frame_step k st h h' None None _ _ Hs Fh (none_some_absurd _) (none_some_absurd _) Hck). }
+  destruct (find N.compare (wl_of k) (ls_prov st)) as [es|] eqn:Fp.
+  2:{ exact (frame_step k st h h' None None _ _ Hs Fh (none_some_absurd _) (none_some_absurd _) Hck). }
+  assert (Fsome : forall fx f' : frontier S, Some fx = Some f' ->
+            find N.compare (wl_of k) (fronts (ls_rt st)) <> None) by (intros; rewrite Ff; discriminate).
+  assert (Pext : forall en (es' : list entry), Some (es ++ [en]) = Some es' ->
+            exists es0 ex, find N.compare (wl_of k) (ls_prov st) = Some es0 /\ es' = es0 ++ ex).
+  { intros en es' E. inversion E; subst. exists es, [en]. split; [exact Fp|reflexivity]. }
+  destruct (commit (f_state f) (b0 :: brest)) as [s' cid rdig|e s'|s'].
+  - (* COk *)
+    destruct (negb (lenN es =? f_tick f)).
+    { exact (frame_step k st h h' (Some _) None _ _ Hs Fh (Fsome _) (none_some_absurd _) Hck). }
+    destruct (f_tick f =? tick_max).
+    { exact (frame_step k st h h' (Some _) (Some _) _ _ Hs Fh (Fsome _) (Pext _) Hck). }
+    pose proof (correlate_spec k next (f_tick f + 1) cid rdig (b0 :: brest) (cor (ls_rt st)) (ls_log st)
+                  (proj1 Hck)) as Hcs.
+    destruct (correlate k next (f_tick f + 1) cid rdig (cor (ls_rt st)) (ls_log st) (b0 :: brest)) as [c' l'|c' l'].
+    + exact (frame_step k st h h' (Some _) (Some _) c' l' Hs Fh (Fsome _) (Pext _) Hcs).
+    + exact (frame_step k st h h' (Some _) (Some _) c' l' Hs Fh (Fsome _) (Pext _) Hcs).
+  - exact (frame_step k st h h' (Some _) None _ _ Hs Fh (Fsome _) (none_some_absurd _) Hck).
+  - exact (frame_step k st h h' (Some _) None _ _ Hs Fh (Fsome _) (none_some_absurd _) Hck).
+Qed.
+
+Lemma pass_loop_frame next : forall keys (st : lstate S),
+  lsorted st ->
+  (forall k, In k keys -> find hkey_cmp k (heads (ls_rt st)) <> None) ->
+  match pass_loop S commit next keys st with
+  | LDone st' _ | LFail st' _ _ | LPanic st' => frame keys st st' /\ lsorted st'
+  | LOuter _ _ => False
+  end.
+Proof.
+  induction keys as [|k ks IH]; intros st Hs Hk; cbn [pass_loop].
+  - split; [apply frame_refl|exact Hs].
+  - pose proof (pass_step_frame next k st Hs) as H1.
+    destruct (pass_step S commit next k st) as [st1 o|st1 e|st1|st1 e].
+    + destruct H1 as [F1 Hs1].
+      assert (Hk1 : forall k', In k' ks -> find hkey_cmp k' (heads (ls_rt st1)) <> None).
+      { intros k' Hin Hn. apply (fr_heads_dom _ _ _ F1) in Hn. apply (Hk k'); [right; exact Hin|exact Hn]. }
+      specialize (IH st1 Hs1 Hk1).
+      destruct (pass_loop S commit next ks st1) as [st2 recs|st2 kf e|st2|st2 e]; try exact IH;
+        (destruct IH as [F2 Hs2]; split; [exact (frame_trans [k] ks _ _ _ F1 F2)|exact Hs2]).
+    + destruct H1 as [F1 Hs1]; split; [exact (frame_trans [k] ks _ _ _ F1 (frame_refl ks st1))|exact Hs1].
+    + destruct H1 as [F1 Hs1]; split; [exact (frame_trans [k] ks _ _ _ F1 (frame_refl ks st1))|exact Hs1].
+    + apply (Hk k); [left; reflexivity|exact H1].
+Qed.
+
+(* ------------------------------------------------------------------ checkpoints are complete *)
+
+Lemma checkpoint_heads_spec (r : rt S) : forall keys cp, checkpoint_heads S r keys = Some cp ->
+  sorted hkey_cmp cp /\
+  (forall k, In k keys -> find hkey_cmp k cp = find hkey_cmp k (heads r) /\ find hkey_cmp k (heads r) <> None) /\
+  (forall k, ~ In k keys -> find hkey_cmp k cp = None).
+Proof.
+  induction keys as [|k ks IH]; intros cp H; cbn [checkpoint_heads] in H.
+  - inversion H; subst. split; [exact I|]. split; [intros k []|reflexivity].
+  - destruct (find hkey_cmp k (heads r)) as [h|] eqn:Fh; [|discriminate].
+    destruct (checkpoint_heads S r ks) as [m|]; [|discriminate]. inversion H; subst cp; clear H.
+    destruct (IH m eq_refl) as (Hs & Hin & Hout).
+    split; [apply set_sorted; auto; ord|]. split.
+    + intros k' Hk'. rewrite (find_set hkey_cmp hkey_order).
+      destruct (cmp_dec hkey_cmp hkey_order k' k) as [->|Hne].
+      * rewrite Fh. split; [reflexivity|discriminate].
+      * apply Hin. destruct Hk' as [E|Hk']; [congruence|exact Hk'].
+    + intros k' Hn. rewrite (find_set hkey_cmp hkey_order).
+      destruct (cmp_dec hkey_cmp hkey_order k' k) as [->|Hne]; [exfalso; apply Hn; left; reflexivity|].
+      apply Hout. intro; apply Hn; right; assumption.
+Qed.
+
+Lemma checkpoint_fronts_spec (r : rt S) : forall keys cp, checkpoint_fronts S r keys = Some cp ->
+  sorted N.compare cp /\
+  (forall w, In w (map wl_of keys) ->
+     find N.compare w cp = find N.compare w (fronts r) /\ find N.compare w (fronts r) <> None) /\
+  (forall w, ~ In w (map wl_of keys) -> find N.compare w cp = None).
+Proof.
+  induction keys as [|k ks IH]; intros cp H; cbn [checkpoint_fronts] in H.
+  - inversion H; subst. split; [exact I|]. split; [intros k []|reflexivity].
+  - destruct (find N.compare (wl_of k) (fronts r)) as [f|] eqn:Ff; [|discriminate].
+    destruct (checkpoint_fronts S r ks) as [m|]; [|discriminate]. inversion H; subst cp; clear H.
+    destruct (IH m eq_refl) as (Hs & Hin & Hout).
+    split; [apply set_sorted; auto; ord|]. split.
+    + intros w Hw. rewrite (find_set N.compare N_order).
+      destruct (cmp_dec N.compare N_order w (wl_of k)) as [->|Hne].
+      * rewrite Ff. split; [reflexivity|discriminate].
+      * apply Hin. cbn [map] in Hw. destruct Hw as [E|Hw]; [congruence|exact Hw].
+    + intros w Hn. rewrite (find_set N.compare N_order). cbn [map] in Hn.
+      destruct (cmp_dec N.compare N_order w (wl_of k)) as [->|Hne]; [exfalso; apply Hn; left; reflexivity|].
+      apply Hout. intro; apply Hn; right; assumption.
+Qed.
+
+Lemma prov_checkpoint_spec (p : provmap) : forall keys cp, prov_checkpoint p keys = Some cp ->
+  sorted N.compare cp /\
+  (forall w, In w (map wl_of keys) ->
+     exists es, find N.compare w p = Some es /\ find N.compare w cp = Some (lenN es)) /\
+  (forall w, ~ In w (map wl_of keys) -> find N.compare w cp = None).
+Proof.
+  induction keys as [|k ks IH]; intros cp H; cbn [prov_checkpoint] in H.
+  - inversion H; subst. split; [exact I|]. split; [intros k []|reflexivity].
+  - destruct (find N.compare (wl_of k) p) as [es|] eqn:Fp; [|discriminate].
+    destruct (prov_checkpoint p ks) as [m|]; [|discriminate]. inversion H; subst cp; clear H.
+    destruct (IH m eq_refl) as (Hs & Hin & Hout).
+    split; [apply set_sorted; auto; ord|]. split.
+    + intros w Hw. rewrite (find_set N.compare N_order).
+      destruct (cmp_dec N.compare N_order w (wl_of k)) as [->|Hne].
+      * exists es. split; [exact Fp|reflexivity].
+      * apply Hin. cbn [map] in Hw. destruct Hw as [E|Hw]; [congruence|exact Hw].
+    + intros w Hn. rewrite (find_set N.compare N_order). cbn [map] in Hn.
+      destruct (cmp_dec N.compare N_order w (wl_of k)) as [->|Hne]; [exfalso; apply Hn; left; reflexivity|].
+      apply Hout. intro; apply Hn; right; assumption.
+Qed.
+
+Lemma find_prov_restore : forall (cp : list (N * N)), sorted N.compare cp -> forall (p : provmap) w,
+  find N.compare w (prov_restore p cp) =
+  match find N.compare w cp with
+  | Some n => match find N.compare w p with Some es => Some (firstn (N.to_nat n) es) | None => None end
+  | None => find N.compare w p
+  end.
+Proof.
+  induction cp as [|[w1 n1] rest IH]; intros Hs p w; [reflexivity|].
+  cbn in Hs. destruct Hs as [Hlb Hs]. unfold prov_restore. cbn [fold_left fst snd]. fold (prov_restore).
+  change (fold_left _ rest ?q) with (prov_restore q rest).
+  rewrite IH by exact Hs. cbn [find].
+  destruct (N.compare w w1) eqn:E.
+  - apply N.compare_eq_iff in E; subst w1.
+    rewrite (find_lb_none N.compare (ol_trans _ N_order)) by auto.
+    destruct (find N.compare w p) as [es|] eqn:Fp; [|exact Fp].
+    apply find_set_same; ord.
+  - assert (w <> w1) by (intro; subst; rewrite N.compare_refl in E; discriminate).
+    assert (Hp : find N.compare w (match find N.compare w1 p with
+                                   | Some es => set N.compare w1 (firstn (N.to_nat n1) es) p | None => p end)
+                 = find N.compare w p).
+    { destruct (find N.compare w1 p); auto. apply find_set_other; auto; ord. }
+    rewrite Hp. reflexivity.
+  - assert (w <> w1) by (intro; subst; rewrite N.compare_refl in E; discriminate).
+    assert (Hp : find N.compare w (match find N.compare w1 p with
+                                   | Some es => set N.compare w1 (firstn (N.to_nat n1) es) p | None => p end)
+                 = find N.compare w p).
+    { destruct (find N.compare w1 p); auto. apply find_set_other; auto; ord. }
+    rewrite Hp. reflexivity.
+Qed.
+
+Lemma prov_restore_sorted : forall (cp : list (N * N)) (p : provmap),
+  sorted N.compare p -> sorted N.compare (prov_restore p cp).
+Proof.
+  induction cp as [|[w1 n1] rest IH]; intros p Hs; [exact Hs|].
+  unfold prov_restore. cbn [fold_left fst snd]. change (fold_left _ rest ?q) with (prov_restore q rest).
+  apply IH. destruct (find N.compare w1 p); auto. apply set_sorted; auto; ord.
+Qed.
+
+(* the partial checkpoint is complete: restoring it after ANY partial pass gives back the pre-pass world *)
+Lemma rollback_restore_exact (r : rt S) (p : provmap) keys cp pcp (st : lstate S) :
+  wf r p -> lsorted st ->
+  checkpoint_for S r keys = Some cp -> prov_checkpoint p keys = Some pcp ->
+  frame keys {| ls_rt := r; ls_prov := p; ls_log := [] |} st ->
+  restore S (upd S (ls_rt st) (heads (ls_rt st)) (fronts (ls_rt st)) (rollback (ls_log st) (cor (ls_rt st)))) cp = r /\
+  prov_restore (ls_prov st) pcp = p.
+Proof.
+  intros ((Hh & Hf & Hc) & Hp) ((Hh1 & Hf1 & Hc1) & Hp1) Hcp Hpcp F.
+  unfold checkpoint_for in Hcp.
+  destruct (checkpoint_heads S r keys) as [ch|] eqn:Ech; [|discriminate].
+  destruct (checkpoint_fronts S r keys) as [cf|] eqn:Ecf; [|discriminate].
+  inversion Hcp; subst cp; clear Hcp.
+  destruct (checkpoint_heads_spec r keys ch Ech) as (Sch & Hin & Hout).
+  destruct (checkpoint_fronts_spec r keys cf Ecf) as (Scf & Fin & Fout).
+  destruct (prov_checkpoint_spec p keys pcp Hpcp) as (Spc & Pin & Pout).
+  cbn [ls_rt ls_prov ls_log] in F.
+  split.
+  - apply rt_ext; unfold restore; cbn.
+    + apply (sorted_ext hkey_cmp); try ord; auto.
+      { apply (fold_set_sorted hkey_cmp hkey_order); auto. }
+      intros k. rewrite (find_fold_set hkey_cmp hkey_order) by auto.
+      destruct (in_dec hkey_eq_dec k keys) as [Hk|Hk].
+      * destruct (Hin k Hk) as [E Hne]. rewrite E. destruct (find hkey_cmp k (heads r)); congruence.
+      * rewrite (Hout k Hk). apply (fr_heads _ _ _ F k Hk).
+    + apply (sorted_ext N.compare); try ord; auto.
+      { apply (fold_set_sorted N.compare N_order); auto. }
+      intros w. rewrite (find_fold_set N.compare N_order) by auto.
+      destruct (in_dec N.eq_dec w (map wl_of keys)) as [Hw|Hw].
+      * destruct (Fin w Hw) as [E Hne]. rewrite E. destruct (find N.compare w (fronts r)); congruence.
+      * rewrite (Fout w Hw). apply (fr_fronts _ _ _ F w Hw).
+    + reflexivity.
+    + exact (proj1 (fr_corr _ _ _ F)).
+    + exact (proj1 (fr_faults _ _ _ F)).
+    + exact (proj1 (proj2 (fr_faults _ _ _ F))).
+    + exact (proj1 (proj2 (proj2 (fr_faults _ _ _ F)))).
+    + exact (proj2 (proj2 (proj2 (fr_faults _ _ _ F)))).
+  - apply (sorted_ext N.compare); try ord; auto.
+    { apply prov_restore_sorted; auto. }
+    intros w. rewrite find_prov_restore by auto.
+    destruct (in_dec N.eq_dec w (map wl_of keys)) as [Hw|Hw].
+    + destruct (Pin w Hw) as (es & E1 & E2). rewrite E2.
+      destruct (fr_prov_ext _ _ _ F w es E1) as [ex E3]. cbn [ls_prov] in E3. rewrite E3.
+      rewrite firstn_len_app. symmetry. exact E1.
+    + rewrite (Pout w Hw). apply (fr_prov _ _ _ F w Hw).
+Qed.
+
+(* ------------------------------------------------------------------ super_tick, case by case *)
+
+Lemma pass_loop_fail_key next : forall keys (st : lstate S) st' k e,
+  pass_loop S commit next keys st = LFail st' k e -> In k keys.
+Proof.
+  induction keys as [|k0 ks IH]; intros st st' k e H; cbn [pass_loop] in H; [discriminate|].
+  destruct (pass_step S commit next k0 st) as [st1 o|st1 e1|st1|st1 e1]; try discriminate.
+  - destruct (pass_loop S commit next ks st1) eqn:E; try discriminate.
+    inversion H; subst. right. eapply IH; eauto.
+  - inversion H; subst. left; reflexivity.
+Qed.
+
+Lemma preflight_spec (r : rt S) : forall keys k e, preflight S r keys = Some (k, e) ->
+  In k keys /\ (forall w, e = EFrontierOverflow w -> w = wl_of k).
+Proof.
+  induction keys as [|k0 ks IH]; intros k e H; cbn [preflight] in H; [discriminate|].
+  destruct (find hkey_cmp k0 (heads r)) as [h|].
+  - destruct (can_admit h).
+    + destruct (find N.compare (wl_of k0) (fronts r)) as [f|].
+      * destruct (f_tick f =? tick_max).
+        -- inversion H; subst. split; [left; reflexivity|]. intros w E; inversion E; reflexivity.
+        -- destruct (IH k e H) as [A B]. split; [right; exact A|exact B].
+      * inversion H; subst. split; [left; reflexivity|]. intros w E; discriminate.
+    + destruct (IH k e H) as [A B]. split; [right; exact A|exact B].
+  - inversion H; subst. split; [left; reflexivity|]. intros w E; discriminate.
+Qed.
+
+(* every way a pass can end *)
+Inductive tick_case (r : rt S) (p : provmap) : rt S -> provmap -> outcome -> Prop :=
+| TcRefused g : rt_fault r = Some g -> tick_case r p r p (OErr (ERuntimeFaultActive g))
+| TcGlobalOverflow r' o : rt_fault r = None -> gtick r = tick_max ->
+    fault_then S r (gtick r, runnable_keys S r) SRuntime EGlobalOverflow = (r', o) -> tick_case r p r' p o
+| TcPreflight k w r' o : rt_fault r = None -> In k (runnable_keys S r) -> w = wl_of k ->
+    fault_then S r (gtick r + 1, runnable_keys S r) (SHead k) (EFrontierOverflow w) = (r', o) ->
+    tick_case r p r' p o
+| TcEarly e : rt_fault r = None -> (forall x, e <> EEngine x) -> (forall w, e <> EFrontierOverflow w) ->
+    tick_case r p r p (OErr e)
+| TcDone st recs : rt_fault r = None -> gtick r <> tick_max ->
+    pass_loop S commit (gtick r + 1) (runnable_keys S r) {| ls_rt := r; ls_prov := p; ls_log := [] |} = LDone st recs ->
+    frame (runnable_keys S r) {| ls_rt := r; ls_prov := p; ls_log := [] |} st -> lsorted st ->
+    tick_case r p (with_gtick S (ls_rt st) (gtick r + 1)) (ls_prov st) (OOk recs)
+| TcFail k e r' o : rt_fault r = None -> In k (runnable_keys S r) ->
+    fault_then S r (gtick r + 1, runnable_keys S r) (scope_for k e) e = (r', o) -> tick_case r p r' p o
+| TcPanic : rt_fault r = None ->
+    tick_case r p (opt_default r (record_runtime_fault S r (gtick r + 1, runnable_keys S r) CausePanic)) p OPanic.
+
+Lemma super_tick_cases (r : rt S) (p : provmap) : wf r p ->
+  let '(r', p', o) := super_tick S commit r p in tick_case r p r' p' o.
+Proof.
+  intros Hwf. unfold super_tick.
+  destruct (rt_fault r) as [g|] eqn:Erf; [apply TcRefused; exact Erf|].
+  destruct (gtick r =? tick_max) eqn:Eg.
+  { apply N.eqb_eq in Eg.
+    destruct (fault_then S r (gtick r, runnable_keys S r) SRuntime EGlobalOverflow) as [r' o] eqn:Ef.
+    eapply TcGlobalOverflow; eauto. }
+  apply N.eqb_neq in Eg.
+  destruct (preflight S r (runnable_keys S r)) as [[k e]|] eqn:Epf.
+  { destruct (preflight_spec r _ k e Epf) as [Hin Hw].
+    destruct e; try (apply TcEarly; [exact Erf|intros; discriminate|intros; discriminate]).
+    - (* EEngine is never produced by the preflight *)
+      exfalso. clear -Epf. revert Epf. generalize (runnable_keys S r). induction l as [|k0 ks IH]; cbn [preflight]; [discriminate|].
+      destruct (find hkey_cmp k0 (heads r)); [|discriminate].
+      destruct (can_admit h); [|exact IH].
+      destruct (find N.compare (wl_of k0) (fronts r)); [|discriminate].
+      destruct (f_tick f =? tick_max); [discriminate|exact IH].
+    - destruct (fault_then S r (gtick r + 1, runnable_keys S r) (SHead k) (EFrontierOverflow w)) as [r' o] eqn:Ef.
+      eapply TcPreflight; [exact Erf|exact Hin|exact (Hw w eq_refl)|exact Ef]. }
+  destruct (checkpoint_for S r (runnable_keys S r)) as [cp|] eqn:Ecp.
+  2:{ apply TcEarly; [exact Erf|intros; discriminate|intros; discriminate]. }
+  destruct (prov_checkpoint p (runnable_keys S r)) as [pcp|] eqn:Epc.
+  2:{ apply TcEarly; [exact Erf|intros; discriminate|intros; discriminate]. }
+  assert (Hls : lsorted {| ls_rt := r; ls_prov := p; ls_log := [] |}) by exact Hwf.
+  assert (Hkeys : forall k, In k (runnable_keys S r) -> find hkey_cmp k (heads r) <> None).
+  { unfold checkpoint_for in Ecp.
+    destruct (checkpoint_heads S r (runnable_keys S r)) as [ch|] eqn:Ech; [|discriminate].
+    intros k Hk. exact (proj2 (proj1 (proj2 (checkpoint_heads_spec r _ ch Ech)) k Hk)). }
+  pose proof (pass_loop_frame (gtick r + 1) (runnable_keys S r) _ Hls Hkeys) as HL.
+  destruct (pass_loop S commit (gtick r + 1) (runnable_keys S r) {| ls_rt := r; ls_prov := p; ls_log := [] |})
+    as [st recs|st k e|st|st e] eqn:EL.
+  - destruct HL as [F Hs]. apply TcDone; auto.
+  - destruct HL as [F Hs].
+    destruct (rollback_restore_exact r p _ cp pcp st Hwf Hs Ecp Epc F) as [Er Ep].
+    rewrite Er, Ep.
+    destruct (fault_then S r (gtick r + 1, runnable_keys S r) (scope_for k e) e) as [r3 o] eqn:Ef.
+    eapply TcFail; eauto. eapply pass_loop_fail_key; eauto.
+  - destruct HL as [F Hs].
+    destruct (rollback_restore_exact r p _ cp pcp st Hwf Hs Ecp Epc F) as [Er Ep].
+    rewrite Er, Ep. apply TcPanic. exact Erf.
+  - destruct HL.
+Qed.
+
+Lemma fault_then_spec (r : rt S) run sc e r' o : fault_then S r run sc e = (r', o) ->
+  (record_fault S r run sc (CauseErr e) = Some r' /\ o = OErr e) \/
+  (record_fault S r run sc (CauseErr e) = None /\ r' = r /\ o = OErr EGenOverflow).
+Proof.
+  unfold fault_then. destruct (record_fault S r run sc (CauseErr e)) as [r1|]; intros H; inversion H; subst; auto.
+Qed.
+
+(* recording a fault touches fault evidence only *)
+Lemma record_fault_same (r : rt S) run sc c r' : record_fault S r run sc c = Some r' -> same_but_faults S r r'.
+Proof.
+  unfold record_fault, record_head_fault, record_runtime_fault, same_but_faults.
+  destruct sc as [k|].
+  - destruct (find hkey_cmp k (faulted_heads r)); [intros H; inversion H; subst; auto|].
+    destruct (alloc_gen S r); intros H; inversion H; subst; cbn; auto.
+  - destruct (rt_fault r); [intros H; inversion H; subst; auto|].
+    destruct (alloc_gen S r); intros H; inversion H; subst; cbn; auto.
+Qed.
+
+(* C09 core: a pass that does not succeed leaves everything but fault evidence exactly as it was *)
+Theorem super_tick_atomic (r : rt S) (p : provmap) r' p' o :
+  wf r p -> super_tick S commit r p = (r', p', o) -> (forall recs, o <> OOk recs) ->
+  p' = p /\ (r' = r \/ exists run sc c, record_fault S r run sc c = Some r').
+Proof.
+  intros Hwf E Hno. pose proof (super_tick_cases r p Hwf) as H. rewrite E in H.
+  inversion H; subst; split; auto.
+  - destruct (fault_then_spec _ _ _ _ _ _ H2) as [[A _]|[_ [A _]]]; [right; eauto|left; exact A].
+  - destruct (fault_then_spec _ _ _ _ _ _ H3) as [[A _]|[_ [A _]]]; [right; eauto|left; exact A].
+  - exfalso. eapply Hno; reflexivity.
+  - exfalso. eapply Hno; reflexivity.
+  - destruct (fault_then_spec _ _ _ _ _ _ H2) as [[A _]|[_ [A _]]]; [right; eauto|left; exact A].
+  - destruct (record_runtime_fault S r (gtick r + 1, runnable_keys S r) CausePanic) as [r1|] eqn:A; cbn.
+    + right. exists (gtick r + 1, runnable_keys S r), SRuntime, CausePanic. exact A.
+    + left; reflexivity.
+Qed.
+
+(* ------------------------------------------------------------------ successful pass: shape *)
+
+Definition can_admit_in (hs : list (hkey * head)) (k : hkey) : bool :=
+  match find hkey_cmp k hs with Some h => can_admit h | None => false end.
+Definition count_wl (w : N) (recs : list step) : N :=
+  lenN (filter (fun s => wl_of (st_head s) =? w) recs).
+
+Lemma lenN_cons {A} (x : A) l : lenN (x :: l) = lenN l + 1.
+Proof. unfold lenN. cbn [length]. lia. Qed.
+Lemma lenN_app {A} (l1 l2 : list A) : lenN (l1 ++ l2) = lenN l1 + lenN l2.
+Proof. unfold lenN. rewrite app_length. lia. Qed.
+
+Lemma admit_nil_iff h : fst (admit h) = [] <-> can_admit h = false.
+Proof.
+  unfold admit, can_admit. destruct (h_policy h) as [|n]; cbn [fst].
+  - destruct (h_pending h); cbn; split; congruence.
+  - destruct (h_pending h) as [|x l] eqn:E.
+    + unfold take_n. rewrite firstn_nil. cbn. tauto.
+    + unfold take_n. rewrite lenN_cons.
+      destruct (N.ltb_spec 0 n) as [Hlt|Hge].
+      * split; [|discriminate]. intros H.
+        assert (Hm : N.to_nat (N.min n (lenN l + 1)) <> O) by lia.
+        destruct (N.to_nat (N.min n (lenN l + 1))); [congruence|]. cbn in H. discriminate.
+      * assert (n = 0) by lia. subst n. rewrite N.min_0_l. cbn. tauto.
+Qed.
+
+Lemma pass_step_cont next k (st st' : lstate S) o : pass_step S commit next k st = SCont st' o ->
+  (forall k', k' <> k -> find hkey_cmp k' (heads (ls_rt st')) = find hkey_cmp k' (heads (ls_rt st))) /\
+  gtick (ls_rt st') = gtick (ls_rt st) /\
+  match o with
+  | None => can_admit_in (heads (ls_rt st)) k = false /\ fronts (ls_rt st') = fronts (ls_rt st) /\
+            ls_prov st' = ls_prov st
+  | Some s =>
+      can_admit_in (heads (ls_rt st)) k = true /\ st_head s = k /\ st_gtick s = next /\
+      (forall w, w <> wl_of k -> find N.compare w (fronts (ls_rt st')) = find N.compare w (fronts (ls_rt st)) /\
+                                 find N.compare w (ls_prov st') = find N.compare w (ls_prov st)) /\
+      (exists f f', find N.compare (wl_of k) (fronts (ls_rt st)) = Some f /\
+                    find N.compare (wl_of k) (fronts (ls_rt st')) = Some f' /\
+                    f_tick f' = f_tick f + 1 /\ st_tick_after s = f_tick f + 1) /\
+      (exists es en, find N.compare (wl_of k) (ls_prov st) = Some es /\
+                     find N.compare (wl_of k) (ls_prov st') = Some (es ++ [en]) /\
+                     e_gtick en = next /\ e_head en = k /\ e_tick en = lenN es)
+  end.
+Proof.
+  unfold pass_step, can_admit_in.
+  destruct (find hkey_cmp k (heads (ls_rt st))) as [h|] eqn:Fh; [|discriminate].
+  pose proof (admit_nil_iff h) as Hnil.
+  destruct (admit h) as [batch h'] eqn:A. cbn [fst] in Hnil.
+  assert (Hoth : forall hs' k', k' <> k -> hs' = set hkey_cmp k h' (heads (ls_rt st)) ->
+            find hkey_cmp k' hs' = find hkey_cmp k' (heads (ls_rt st))).
+  { intros hs' k' Hne ->. apply find_set_other; auto; ord. }
+  destruct batch as [|b0 brest].
+  { intros H; inversion H; subst; clear H. cbn. split; [intros; eapply Hoth; eauto|]. split; [reflexivity|].
+    split; [apply Hnil; reflexivity|auto]. }
+  assert (Hcan : can_admit h = true).
+  { destruct (can_admit h); auto. destruct Hnil as [_ Hn]. specialize (Hn eq_refl). discriminate. }
+  destruct (find N.compare (wl_of k) (fronts (ls_rt st))) as [f|] eqn:Ff; [|discriminate].
+  destruct (find N.compare (wl_of k) (ls_prov st)) as [es|] eqn:Fp; [|discriminate].
+  destruct (commit (f_state f) (b0 :: brest)) as [s' cid rdig|e s'|s']; try discriminate.
+  destruct (negb (lenN es =? f_tick f)) eqn:Egap; [discriminate|].
+  destruct (f_tick f =? tick_max); [discriminate|].
+  destruct (correlate k next (f_tick f + 1) cid rdig (cor (ls_rt st)) (ls_log st) (b0 :: brest)) as [c' l'|c' l'];
+    [|discriminate].
+  intros H; inversion H; subst; clear H. cbn.
+  split; [intros; eapply Hoth; eauto|]. split; [reflexivity|].
+  split; [exact Hcan|]. split; [reflexivity|]. split; [reflexivity|]. split; [|split].
+  - intros w Hne. split; apply find_set_other; auto; ord.
+  - eexists; eexists. split; [reflexivity|]. split; [apply find_set_same; ord|]. cbn. auto.
+  - eexists; eexists. split; [reflexivity|]. split; [apply find_set_same; ord|]. cbn.
+    apply negb_false_iff, N.eqb_eq in Egap. auto.
+Qed.
+
+Lemma count_wl_cons w s recs :
+  count_wl w (s :: recs) = (if wl_of (st_head s) =? w then 1 else 0) + count_wl w recs.
+Proof. unfold count_wl. cbn [filter]. destruct (wl_of (st_head s) =? w); [rewrite lenN_cons; lia|lia]. Qed.
+
+Lemma pass_loop_done next : forall keys (st st' : lstate S) recs,
+  NoDup keys -> pass_loop S commit next keys st = LDone st' recs ->
+  map st_head recs = filter (can_admit_in (heads (ls_rt st))) keys /\
+  Forall (fun s => st_gtick s = next) recs /\
+  gtick (ls_rt st') = gtick (ls_rt st) /\
+  (forall w f, find N.compare w (fronts (ls_rt st)) = Some f ->
+     exists f', find N.compare w (fronts (ls_rt st')) = Some f' /\ f_tick f' = f_tick f + count_wl w recs) /\
+  (forall w es, find N.compare w (ls_prov st) = Some es ->
+     exists ex, find N.compare w (ls_prov st') = Some (es ++ ex) /\ lenN ex = count_wl w recs /\
+                Forall (fun e => e_gtick e = next) ex).
+Proof.
+  induction keys as [|k ks IH]; intros st st' recs Hnd H; cbn [pass_loop] in H.
+  - inversion H; subst. cbn. split; [reflexivity|]. split; [constructor|]. split; [reflexivity|]. split.
+    + intros w f Hf. exists f. split; [exact Hf|]. unfold count_wl; cbn. lia.
+    + intros w es He. exists []. rewrite app_nil_r. split; [exact He|]. split; [reflexivity|constructor].
+  - destruct (pass_step S commit next k st) as [st1 o|st1 e|st1|st1 e] eqn:Est; try discriminate.
+    destruct (pass_loop S commit next ks st1) as [st2 recs2|? ? ?|?|? ?] eqn:EL; try discriminate.
+    inversion H; subst st2 recs; clear H.
+    inversion Hnd as [|? ? Hnk Hnd']; subst.
+    destruct (pass_step_cont next k st st1 o Est) as (Hoth & Hg1 & Ho).
+    destruct (IH st1 st' recs2 Hnd' EL) as (I1 & I2 & I3 & I4 & I5).
+    assert (Hfilt : filter (can_admit_in (heads (ls_rt st1))) ks = filter (can_admit_in (heads (ls_rt st))) ks).
+    { apply filter_ext_in. intros k' Hk'. unfold can_admit_in. rewrite Hoth; auto. intro; subst; contradiction. }
+    destruct o as [s|].
+    + destruct Ho as (Hc & Hh & Hgt & Hother & (f & f1 & Ff & Ff1 & Ft & Hta) & (es & en & Fp & Fp1 & Eg & Eh & Et)).
+      cbn [opt_cons map filter]. rewrite Hc, Hh, I1, Hfilt.
+      split; [reflexivity|]. split; [constructor; auto|]. split; [congruence|]. split.
+      * intros w f0 Hf0. rewrite count_wl_cons, Hh.
+        destruct (N.eqb_spec (wl_of k) w) as [<-|Hne].
+        -- rewrite Ff in Hf0; inversion Hf0; subst f0.
+           destruct (I4 _ _ Ff1) as (f' & A & B). exists f'. split; [exact A|]. lia.
+        -- destruct (Hother w (fun E => Hne (eq_sym E))) as [A _]. rewrite <- A in Hf0.
+           destruct (I4 _ _ Hf0) as (f' & B & C). exists f'. split; [exact B|]. lia.
+      * intros w es0 He0. rewrite count_wl_cons, Hh.
+        destruct (N.eqb_spec (wl_of k) w) as [<-|Hne].
+        -- rewrite Fp in He0; inversion He0; subst es0.
+           destruct (I5 _ _ Fp1) as (ex & A & B & C). exists ([en] ++ ex).
+           rewrite app_assoc. split; [exact A|]. split; [rewrite lenN_app; change (lenN [en]) with 1; lia|].
+           constructor; auto.
+        -- destruct (Hother w (fun E => Hne (eq_sym E))) as [_ A]. rewrite <- A in He0.
+           destruct (I5 _ _ He0) as (ex & B & C & D). exists ex. split; [exact B|]. split; [lia|exact D].
+    + destruct Ho as (Hc & Hf & Hp). cbn [opt_cons filter]. rewrite Hc, I1, Hfilt.
+      split; [reflexivity|]. split; [exact I2|]. split; [congruence|]. split.
+      * intros w f0 Hf0. rewrite <- Hf in Hf0. exact (I4 _ _ Hf0).
+      * intros w es0 He0. rewrite <- Hp in He0. exact (I5 _ _ He0).
+Qed.
+
+(* ------------------------------------------------------------------ canonical order of the runnable set *)
+
+Definition hlt (a b : hkey) : Prop := hkey_cmp a b = Lt.
+
+Lemma sorted_keys_ss {V} (m : list (hkey * V)) : sorted hkey_cmp m -> StronglySorted hlt (map fst m).
+Proof.
+  induction m as [|[k v] m IH]; intros Hs; cbn [map fst]; [constructor|].
+  cbn in Hs. destruct Hs as [Hlb Hs]. constructor; [auto|].
+  apply Forall_forall. intros k' Hin. apply in_map_iff in Hin. destruct Hin as ([k2 v2] & <- & Hin).
+  exact (lb_all hkey_cmp (ol_trans _ hkey_order) k m Hs Hlb k2 v2 Hin).
+Qed.
+
+Lemma ss_filter_map {V} (f : hkey * V -> bool) (m : list (hkey * V)) :
+  StronglySorted hlt (map fst m) -> StronglySorted hlt (map fst (filter f m)).
+Proof.
+  induction m as [|x m IH]; cbn [map filter]; intros H; [constructor|].
+  inversion H as [|? ? Hss Hall]; subst.
+  destruct (f x); [|auto]. cbn [map]. constructor; [auto|].
+  apply Forall_forall. intros k' Hin. rewrite Forall_forall in Hall. apply Hall.
+  apply in_map_iff in Hin. destruct Hin as (y & <- & Hy). apply filter_In in Hy. apply in_map. tauto.
+Qed.
+
+Lemma ss_filter (f : hkey -> bool) (l : list hkey) :
+  StronglySorted hlt l -> StronglySorted hlt (filter f l).
+Proof.
+  induction l as [|x l IH]; cbn [filter]; intros H; [constructor|].
+  inversion H as [|? ? Hss Hall]; subst. destruct (f x); [|auto]. constructor; [auto|].
+  apply Forall_forall. intros k' Hin. rewrite Forall_forall in Hall. apply Hall. apply filter_In in Hin. tauto.
+Qed.
+
+Lemma ss_nodup (l : list hkey) : StronglySorted hlt l -> NoDup l.
+Proof.
+  induction l as [|x l IH]; intros H; [constructor|]. inversion H as [|? ? Hss Hall]; subst.
+  constructor; [|auto]. intros Hin. rewrite Forall_forall in Hall. specialize (Hall x Hin).
+  unfold hlt in Hall. rewrite (cmp_refl hkey_cmp (ol_eq _ hkey_order)) in Hall. discriminate.
+Qed.
+
+(* RunnableWriterSet::rebuild: strictly ascending (worldline, head) order *)
+Lemma runnable_ascending (r : rt S) : sorted hkey_cmp (heads r) ->
+  StronglySorted hlt (runnable_keys S r).
+Proof.
+  intros Hs. unfold runnable_keys. destruct (rt_fault r); [constructor|].
+  apply ss_filter_map, sorted_keys_ss, Hs.
+Qed.
+
+Lemma runnable_spec (r : rt S) k : sorted hkey_cmp (heads r) ->
+  (In k (runnable_keys S r) <->
+   rt_fault r = None /\ exists h, find hkey_cmp k (heads r) = Some h /\ h_admitted h = true /\ h_paused h = false /\
+                                  find hkey_cmp k (faulted_heads r) = None).
+Proof.
+  intros Hs. unfold runnable_keys. destruct (rt_fault r) as [g|].
+  - split; [intros []|intros [H _]; discriminate].
+  - rewrite in_map_iff. split.
+    + intros ([k' h] & E & Hin). cbn in E; subst k'. apply filter_In in Hin. destruct Hin as [Hin Hb]. cbn in Hb.
+      apply andb_true_iff in Hb. destruct Hb as [Hb H3]. apply andb_true_iff in Hb. destruct Hb as [H1 H2].
+      split; [reflexivity|]. exists h. split; [|split; [exact H1|split]].
+      * apply in_find; auto; ord.
+      * apply negb_true_iff. exact H2.
+      * apply negb_true_iff in H3. apply (mem_false hkey_cmp). exact H3.
+    + intros (_ & h & Fh & H1 & H2 & H3). exists (k, h). split; [reflexivity|]. apply filter_In. split.
+      * apply find_in in Fh; auto; ord.
+      * cbn. rewrite H1, H2. cbn. apply negb_true_iff. apply (mem_false hkey_cmp). exact H3.
+Qed.
+
+(* ------------------------------------------------------------------ pinned statements *)
+
+Definition count_heads (w : N) (recs : list step) : N := count_wl w recs.
+
+Theorem super_tick_success (r : rt S) (p : provmap) r' p' recs :
+  wf r p -> super_tick S commit r p = (r', p', OOk recs) ->
+  gtick r' = gtick r + 1 /\
+  map st_head recs = filter (can_admit_in (heads r)) (runnable_keys S r) /\
+  StronglySorted hlt (map st_head recs) /\
+  Forall (fun s => st_gtick s = gtick r + 1) recs /\
+  (forall w f, find N.compare w (fronts r) = Some f ->
+     exists f', find N.compare w (fronts r') = Some f' /\ f_tick f' = f_tick f + count_wl w recs) /\
+  (forall w es, find N.compare w p = Some es ->
+     exists ex, find N.compare w p' = Some (es ++ ex) /\ lenN ex = count_wl w recs /\
+                Forall (fun e => e_gtick e = gtick r + 1) ex) /\
+  faults r' = faults r /\ faulted_heads r' = faulted_heads r /\ rt_fault r' = rt_fault r /\
+  wf r' p'.
+Proof.
+  intros Hwf E. pose proof (super_tick_cases r p Hwf) as H. rewrite E in H.
+  inversion H; subst;
+    try (match goal with Hf : fault_then _ _ _ _ _ = _ |- _ =>
+           destruct (fault_then_spec _ _ _ _ _ _ Hf) as [[_ A]|[_ [_ A]]]; discriminate end).
+  match goal with HL : pass_loop _ _ _ _ _ = LDone _ _, HF : frame _ _ _, HS : lsorted _ |- _ =>
+    rename HL into Hloop; rename HF into Hframe; rename HS into Hsorted end.
+  pose proof (runnable_ascending r (proj1 (proj1 Hwf))) as Hasc.
+  destruct (pass_loop_done _ _ _ _ _ (ss_nodup _ Hasc) Hloop) as (I1 & I2 & I3 & I4 & I5).
+  cbn [ls_rt ls_prov] in *.
+  split; [reflexivity|]. split; [exact I1|]. split; [rewrite I1; apply ss_filter; exact Hasc|].
+  split; [exact I2|]. split; [exact I4|]. split; [exact I5|].
+  destruct (fr_faults _ _ _ Hframe) as (A1 & A2 & A3 & _). cbn in A1, A2, A3.
+  split; [exact A1|]. split; [exact A2|]. split; [exact A3|]. exact Hsorted.
+Qed.
+
+(* lawful rejection: the engine's Ok outcome (whatever its receipt says) never produces a fault; an engine-scoped
+   fault or a caught unwind exists only if the engine really returned a typed error / unwound *)
+Lemma pass_loop_fail_cause next : forall keys (st : lstate S),
+  match pass_loop S commit next keys st with
+  | LFail _ _ (EEngine x) => exists s b s', commit s b = CErr x s'
+  | LPanic _ => exists s b s', commit s b = CPanic s'
+  | LOuter _ e => exists k, e = EUnknownHead k
+  | _ => True
+  end.
+Proof.
+  induction keys as [|k ks IH]; intros st; cbn [pass_loop]; [exact I|].
+  destruct (pass_step S commit next k st) as [st1 o|st1 e|st1|st1 e] eqn:Est.
+  - specialize (IH st1). destruct (pass_loop S commit next ks st1); auto.
+  - destruct e; auto. revert Est. unfold pass_step.
+    destruct (find hkey_cmp k (heads (ls_rt st))); [|discriminate].
+    destruct (admit h) as [batch h']. destruct batch; [discriminate|].
+    destruct (find N.compare (wl_of k) (fronts (ls_rt st))); [|discriminate].
+    destruct (find N.compare (wl_of k) (ls_prov st)); [|discriminate].
+    destruct (commit (f_state f) (n :: batch)) as [s' cid rdig|e0 s'|s'] eqn:Ec; try discriminate.
+    + destruct (negb (lenN l =? f_tick f)); [discriminate|].
+      destruct (f_tick f =? tick_max); [discriminate|].
+      destruct (correlate k next (f_tick f + 1) cid rdig (cor (ls_rt st)) (ls_log st) (n :: batch)); discriminate.
+    + intros H; inversion H; subst. eauto.
+  - revert Est. unfold pass_step.
+    destruct (find hkey_cmp k (heads (ls_rt st))); [|discriminate].
+    destruct (admit h) as [batch h']. destruct batch; [discriminate|].
+    destruct (find N.compare (wl_of k) (fronts (ls_rt st))); [|discriminate].
+    destruct (find N.compare (wl_of k) (ls_prov st)); [|discriminate].
+    destruct (commit (f_state f) (n :: batch)) as [s' cid rdig|e0 s'|s'] eqn:Ec; try discriminate.
+    + destruct (negb (lenN l =? f_tick f)); [discriminate|].
+      destruct (f_tick f =? tick_max); [discriminate|].
+      destruct (correlate k next (f_tick f + 1) cid rdig (cor (ls_rt st)) (ls_log st) (n :: batch)); discriminate.
+    + intros _. eauto.
+  - revert Est. unfold pass_step.
+    destruct (find hkey_cmp k (heads (ls_rt st))); [|intros H; inversion H; eauto].
+    destruct (admit h) as [batch h']. destruct batch; [discriminate|].
+    destruct (find N.compare (wl_of k) (fronts (ls_rt st))); [|discriminate].
+    destruct (find N.compare (wl_of k) (ls_prov st)); [|discriminate].
+    destruct (commit (f_state f) (n :: batch)) as [s' cid rdig|e0 s'|s']; try discriminate.
+    destruct (negb (lenN l =? f_tick f)); [discriminate|].
+    destruct (f_tick f =? tick_max); [discriminate|].
+    destruct (correlate k next (f_tick f + 1) cid rdig (cor (ls_rt st)) (ls_log st) (n :: batch)); discriminate.
+Qed.
+
+Theorem ok_commit_never_faults (r : rt S) (p : provmap) r' p' o :
+  super_tick S commit r p = (r', p', o) ->
+  (forall s b, exists s' cid rdig, commit s b = COk s' cid rdig) ->
+  o <> OPanic /\ (forall x, o <> OErr (EEngine x)).
+Proof.
+  intros E Hok. unfold super_tick in E.
+  assert (Hft : forall r0 run sc e r1 o1, fault_then S r0 run sc e = (r1, o1) -> (forall x, e <> EEngine x) ->
+            o1 <> OPanic /\ (forall x, o1 <> OErr (EEngine x))).
+  { intros r0 run sc e r1 o1 Hf Hne. unfold fault_then in Hf.
+    destruct (record_fault S r0 run sc (CauseErr e)); inversion Hf; subst; split; try discriminate.
+    intros x Hx. inversion Hx. eapply Hne; eauto. }
+  destruct (rt_fault r); [inversion E; subst; split; discriminate|].
+  destruct (gtick r =? tick_max).
+  { destruct (fault_then S r (gtick r, runnable_keys S r) SRuntime EGlobalOverflow) as [r1 o1] eqn:Ef.
+    inversion E; subst. eapply Hft; eauto. discriminate. }
+  destruct (preflight S r (runnable_keys S r)) as [[k e]|] eqn:Epf.
+  { destruct e; try (inversion E; subst; split; discriminate).
+    - exfalso. clear -Epf. revert Epf. generalize (runnable_keys S r). induction l as [|k0 ks IH]; cbn [preflight]; [discriminate|].
+      destruct (find hkey_cmp k0 (heads r)); [|discriminate].
+      destruct (can_admit h); [|exact IH].
+      destruct (find N.compare (wl_of k0) (fronts r)); [|discriminate].
+      destruct (f_tick f =? tick_max); [discriminate|exact IH].
+    - destruct (fault_then S r (gtick r + 1, runnable_keys S r) (SHead k) (EFrontierOverflow w)) as [r1 o1] eqn:Ef.
+      inversion E; subst. eapply Hft; eauto. discriminate. }
+  destruct (checkpoint_for S r (runnable_keys S r)); [|inversion E; subst; split; discriminate].
+  destruct (prov_checkpoint p (runnable_keys S r)); [|inversion E; subst; split; discriminate].
+  pose proof (pass_loop_fail_cause (gtick r + 1) (runnable_keys S r) {| ls_rt := r; ls_prov := p; ls_log := [] |}) as Hc.
+  destruct (pass_loop S commit (gtick r + 1) (runnable_keys S r) {| ls_rt := r; ls_prov := p; ls_log := [] |})
+    as [st recs|st k e|st|st e].
+  - inversion E; subst; split; discriminate.
+  - match type of E with (let '(_, _) := ?ft in _) = _ => destruct ft as [r3 o3] eqn:Ef end.
+    inversion E; subst. destruct e; try (eapply Hft; eauto; discriminate).
+    destruct Hc as (s & b & s' & Hc). destruct (Hok s b) as (s1 & c1 & d1 & Hk). congruence.
+  - destruct Hc as (s & b & s' & Hc). destruct (Hok s b) as (s1 & c1 & d1 & Hk). congruence.
+  - inversion E; subst; split; try discriminate.
+    intros x Hx. inversion Hx; subst. destruct Hc as [k Hk]. discriminate.
+Qed.
+
+(* ------------------------------------------------------------------ which fault is recorded *)
+
+Lemma pass_step_fail_overflow next k (st st' : lstate S) w :
+  pass_step S commit next k st = SFail st' (EFrontierOverflow w) -> w = wl_of k.
+Proof.
+  unfold pass_step.
+  destruct (find hkey_cmp k (heads (ls_rt st))); [|discriminate].
+  destruct (admit h) as [batch h']. destruct batch; [discriminate|].
+  destruct (find N.compare (wl_of k) (fronts (ls_rt st))); [|discriminate].
+  destruct (find N.compare (wl_of k) (ls_prov st)); [|discriminate].
+  destruct (commit (f_state f) (n :: batch)) as [s' cid rdig|e0 s'|s']; try discriminate.
+  destruct (negb (lenN l =? f_tick f)); [discriminate|].
+  destruct (f_tick f =? tick_max); [intros H; inversion H; reflexivity|].
+  destruct (correlate k next (f_tick f + 1) cid rdig (cor (ls_rt st)) (ls_log st) (n :: batch)); discriminate.
+Qed.
+
+Lemma pass_loop_fail_overflow next : forall keys (st : lstate S) st' k w,
+  pass_loop S commit next keys st = LFail st' k (EFrontierOverflow w) -> w = wl_of k.
+Proof.
+  induction keys as [|k0 ks IH]; intros st st' k w H; cbn [pass_loop] in H; [discriminate|].
+  destruct (pass_step S commit next k0 st) as [st1 o|st1 e1|st1|st1 e1] eqn:Est; try discriminate.
+  - destruct (pass_loop S commit next ks st1) eqn:E; try discriminate.
+    inversion H; subst. eapply IH; eauto.
+  - inversion H; subst. eapply pass_step_fail_overflow; eauto.
+Qed.
+
+Definition inner_err (e : rterr) : Prop :=
+  match e with
+  | ERuntimeFaultActive _ | EGenOverflow | EGlobalOverflow | EUnknownHead _ => False
+  | _ => True
+  end.
+
+Lemma pass_step_fail_kind next k (st st' : lstate S) e :
+  pass_step S commit next k st = SFail st' e -> inner_err e.
+Proof.
+  unfold pass_step.
+  destruct (find hkey_cmp k (heads (ls_rt st))); [|discriminate].
+  destruct (admit h) as [batch h']. destruct batch; [discriminate|].
+  destruct (find N.compare (wl_of k) (fronts (ls_rt st))); [|intros H; inversion H; exact I].
+  destruct (find N.compare (wl_of k) (ls_prov st)); [|intros H; inversion H; exact I].
+  destruct (commit (f_state f) (n :: batch)) as [s' cid rdig|e0 s'|s']; try discriminate.
+  - destruct (negb (lenN l =? f_tick f)); [intros H; inversion H; exact I|].
+    destruct (f_tick f =? tick_max); [intros H; inversion H; exact I|].
+    destruct (correlate k next (f_tick f + 1) cid rdig (cor (ls_rt st)) (ls_log st) (n :: batch));
+      [discriminate|intros H; inversion H; exact I].
+  - intros H; inversion H; exact I.
+Qed.
+
+Lemma pass_loop_fail_kind next : forall keys (st : lstate S) st' k e,
+  pass_loop S commit next keys st = LFail st' k e -> inner_err e.
+Proof.
+  induction keys as [|k0 ks IH]; intros st st' k e H; cbn [pass_loop] in H; [discriminate|].
+  destruct (pass_step S commit next k0 st) as [st1 o|st1 e1|st1|st1 e1] eqn:Est; try discriminate.
+  - destruct (pass_loop S commit next ks st1) eqn:E; try discriminate.
+    inversion H; subst. eapply IH; eauto.
+  - inversion H; subst. eapply pass_step_fail_kind; eauto.
+Qed.
+
+Theorem fault_evidence_exact (r : rt S) (p : provmap) r' p' o :
+  wf r p -> super_tick S commit r p = (r', p', o) ->
+  match o with
+  | OOk _ => faults r' = faults r /\ faulted_heads r' = faulted_heads r /\ rt_fault r' = rt_fault r
+  | OPanic => r' = opt_default r (record_runtime_fault S r (gtick r + 1, runnable_keys S r) CausePanic)
+  | OErr (EEngine x) =>
+      exists k, In k (runnable_keys S r) /\
+        record_head_fault S r (gtick r + 1, runnable_keys S r) k (CauseErr (EEngine x)) = Some r'
+  | OErr (EFrontierOverflow w) =>
+      exists k, In k (runnable_keys S r) /\ wl_of k = w /\
+        record_head_fault S r (gtick r + 1, runnable_keys S r) k (CauseErr (EFrontierOverflow w)) = Some r'
+  | OErr (ERuntimeFaultActive _) | OErr EGenOverflow | OErr (EUnknownHead _) => r' = r
+  | OErr e => r' = r \/ record_runtime_fault S r (if gtick r =? tick_max then gtick r else gtick r + 1, runnable_keys S r)
+                          (CauseErr e) = Some r'
+  end.
+Proof.
+  intros Hwf E.
+  destruct o as [recs|e|].
+  - destruct (super_tick_success r p r' p' recs Hwf E) as (_ & _ & _ & _ & _ & _ & A & B & C & _). auto.
+  - unfold super_tick in E.
+    destruct (rt_fault r) as [g|] eqn:Erf; [inversion E; subst; reflexivity|].
+    assert (Hft : forall run sc e0 r1, fault_then S r run sc e0 = (r1, OErr e) ->
+              (e = e0 /\ record_fault S r run sc (CauseErr e0) = Some r1) \/ (e = EGenOverflow /\ r1 = r)).
+    { intros run sc e0 r1 Hf. destruct (fault_then_spec _ _ _ _ _ _ Hf) as [[A B]|[_ [A B]]].
+      - left. inversion B; subst. auto.
+      - right. inversion B; subst. auto. }
+    destruct (gtick r =? tick_max) eqn:Eg.
+    { destruct (fault_then S r (gtick r, runnable_keys S r) SRuntime EGlobalOverflow) as [r1 o1] eqn:Ef.
+      inversion E; subst. destruct (Hft _ _ _ _ Ef) as [[-> A]|[-> ->]]; [right; exact A|reflexivity]. }
+    destruct (preflight S r (runnable_keys S r)) as [[k e0]|] eqn:Epf.
+    { destruct (preflight_spec r _ k e0 Epf) as [Hin Hw].
+      destruct e0; try (inversion E; subst; auto; fail).
+      - exfalso. clear -Epf. revert Epf. generalize (runnable_keys S r). induction l as [|k0 ks IH]; cbn [preflight]; [discriminate|].
+        destruct (find hkey_cmp k0 (heads r)); [|discriminate].
+        destruct (can_admit h); [|exact IH].
+        destruct (find N.compare (wl_of k0) (fronts r)); [|discriminate].
+        destruct (f_tick f =? tick_max); [discriminate|exact IH].
+      - destruct (fault_then S r (gtick r + 1, runnable_keys S r) (SHead k) (EFrontierOverflow w)) as [r1 o1] eqn:Ef.
+        inversion E; subst. destruct (Hft _ _ _ _ Ef) as [[-> A]|[-> ->]]; [|reflexivity].
+        exists k. split; [exact Hin|]. split; [symmetry; exact (Hw w eq_refl)|exact A]. }
+    destruct (checkpoint_for S r (runnable_keys S r)) as [cp|] eqn:Ecp; [|inversion E; subst; reflexivity].
+    destruct (prov_checkpoint p (runnable_keys S r)) as [pcp|] eqn:Epc; [|inversion E; subst; left; reflexivity].
+    assert (Hls : lsorted {| ls_rt := r; ls_prov := p; ls_log := [] |}) by exact Hwf.
+    assert (Hkeys : forall k, In k (runnable_keys S r) -> find hkey_cmp k (heads r) <> None).
+    { unfold checkpoint_for in Ecp.
+      destruct (checkpoint_heads S r (runnable_keys S r)) as [ch|] eqn:Ech; [|discriminate].
+      intros k Hk. exact (proj2 (proj1 (proj2 (checkpoint_heads_spec r _ ch Ech)) k Hk)). }
+    pose proof (pass_loop_frame (gtick r + 1) (runnable_keys S r) _ Hls Hkeys) as HL.
+    destruct (pass_loop S commit (gtick r + 1) (runnable_keys S r) {| ls_rt := r; ls_prov := p; ls_log := [] |})
+      as [st recs|st k e0|st|st e0] eqn:EL; [discriminate| | |destruct HL].
+    + destruct HL as [F Hs].
+      destruct (rollback_restore_exact r p _ cp pcp st Hwf Hs Ecp Epc F) as [Er Ep].
+      rewrite Er in E.
+      destruct (fault_then S r (gtick r + 1, runnable_keys S r) (scope_for k e0) e0) as [r3 o3] eqn:Ef.
+      inversion E; subst. pose proof (pass_loop_fail_key _ _ _ _ _ _ EL) as Hin.
+      destruct (Hft _ _ _ _ Ef) as [[-> A]|[-> ->]]; [|reflexivity].
+      pose proof (pass_loop_fail_kind _ _ _ _ _ _ EL) as Hkind.
+      destruct e0; cbn [scope_for record_fault] in A; cbn [inner_err] in Hkind; try contradiction; auto.
+      * exists k. split; [exact Hin|exact A].
+      * exists k. split; [exact Hin|]. split; [symmetry; eapply pass_loop_fail_overflow; eauto|exact A].
+    + discriminate.
+  - pose proof (super_tick_cases r p Hwf) as H. rewrite E in H. inversion H; subst; try reflexivity;
+      match goal with Hf : fault_then _ _ _ _ _ = _ |- _ =>
+        destruct (fault_then_spec _ _ _ _ _ _ Hf) as [[_ A]|[_ [_ A]]]; discriminate end.
+Qed.
+
+(* ------------------------------------------------------------------ quarantine and recovery *)
+
+Lemma record_fault_other_head (r : rt S) run sc c r' k :
+  record_fault S r run sc c = Some r' -> (forall k2, sc = SHead k2 -> k2 <> k) ->
+  find hkey_cmp k (faulted_heads r') = find hkey_cmp k (faulted_heads r).
+Proof.
+  unfold record_fault, record_head_fault, record_runtime_fault. destruct sc as [k2|]; intros H Hne.
+  - destruct (find hkey_cmp k2 (faulted_heads r)); [inversion H; subst; reflexivity|].
+    destruct (alloc_gen S r); inversion H; subst; cbn.
+    apply find_set_other; [ord|]. intro E. exact (Hne k2 eq_refl (eq_sym E)).
+  - destruct (rt_fault r); [inversion H; subst; reflexivity|].
+    destruct (alloc_gen S r); inversion H; subst; reflexivity.
+Qed.
+
+Theorem quarantine_holds (r : rt S) (p : provmap) r' p' o k g :
+  wf r p -> find hkey_cmp k (faulted_heads r) = Some g -> super_tick S commit r p = (r', p', o) ->
+  ~ In k (runnable_keys S r) /\
+  find hkey_cmp k (heads r') = find hkey_cmp k (heads r) /\
+  find hkey_cmp k (faulted_heads r') = Some g /\
+  (forall recs, o = OOk recs -> ~ In k (map st_head recs)) /\
+  (forall k2 h2, rt_fault r = None -> find hkey_cmp k2 (heads r) = Some h2 -> h_admitted h2 = true ->
+     h_paused h2 = false -> find hkey_cmp k2 (faulted_heads r) = None ->
+     In k2 (runnable_keys S r) /\
+     (forall recs, o = OOk recs -> can_admit h2 = true -> In k2 (map st_head recs))).
+Proof.
+  intros Hwf Hq E.
+  assert (Hnr : ~ In k (runnable_keys S r)).
+  { intros Hin. apply (runnable_spec r k (proj1 (proj1 Hwf))) in Hin.
+    destruct Hin as (_ & h & _ & _ & _ & Hn). congruence. }
+  split; [exact Hnr|].
+  assert (Hrec : forall run sc c r1, record_fault S r run sc c = Some r1 ->
+            (forall k2, sc = SHead k2 -> In k2 (runnable_keys S r)) ->
+            find hkey_cmp k (heads r1) = find hkey_cmp k (heads r) /\ find hkey_cmp k (faulted_heads r1) = Some g).
+  { intros run sc c r1 Hr Hsc. split.
+    - destruct (record_fault_same _ _ _ _ _ Hr) as (A & _). rewrite A. reflexivity.
+    - rewrite (record_fault_other_head _ _ _ _ _ k Hr); [exact Hq|].
+      intros k2 E2 E3; subst. apply Hnr. apply Hsc. reflexivity. }
+  assert (Hft : forall run sc e r1 o1, fault_then S r run sc e = (r1, o1) ->
+            (forall k2, sc = SHead k2 -> In k2 (runnable_keys S r)) ->
+            find hkey_cmp k (heads r1) = find hkey_cmp k (heads r) /\ find hkey_cmp k (faulted_heads r1) = Some g).
+  { intros run sc e r1 o1 Hf Hsc. destruct (fault_then_spec _ _ _ _ _ _ Hf) as [[A _]|[_ [-> _]]]; [|auto].
+    eapply Hrec; eauto. }
+  pose proof (super_tick_cases r p Hwf) as H. rewrite E in H.
+  assert (Hcore : find hkey_cmp k (heads r') = find hkey_cmp k (heads r) /\ find hkey_cmp k (faulted_heads r') = Some g).
+  { inversion H; subst; auto.
+    - eapply Hft; eauto. intros; discriminate.
+    - eapply Hft; eauto. intros k2 E2; inversion E2; subst; assumption.
+    - match goal with HF : frame _ _ _ |- _ => rename HF into Hframe end.
+      cbn. split.
+      + exact (fr_heads _ _ _ Hframe k Hnr).
+      + destruct (fr_faults _ _ _ Hframe) as (_ & A & _). cbn in A. rewrite A. exact Hq.
+    - eapply Hft; eauto. intros k2 E2. destruct e; cbn in E2; inversion E2; subst; assumption.
+    - destruct (record_runtime_fault S r (gtick r + 1, runnable_keys S r) CausePanic) as [r1|] eqn:A; cbn; [|auto].
+      apply (Hrec (gtick r + 1, runnable_keys S r) SRuntime CausePanic r1 A). intros; discriminate. }
+  destruct Hcore as [Hc1 Hc2]. split; [exact Hc1|]. split; [exact Hc2|]. split.
+  - intros recs -> Hin. destruct (super_tick_success r p r' p' recs Hwf E) as (_ & A & _).
+    rewrite A in Hin. apply filter_In in Hin. tauto.
+  - intros k2 h2 Hrf F2 A2 P2 Q2.
+    assert (Hin2 : In k2 (runnable_keys S r)).
+    { apply (runnable_spec r k2 (proj1 (proj1 Hwf))). split; [exact Hrf|]. exists h2. auto. }
+    split; [exact Hin2|]. intros recs -> Hca.
+    destruct (super_tick_success r p r' p' recs Hwf E) as (_ & A & _).
+    rewrite A. apply filter_In. split; [exact Hin2|]. unfold can_admit_in. rewrite F2. exact Hca.
+Qed.
+
+Lemma find_fault_mark g rid : forall l f, find_fault g l = Some f ->
+  find_fault g (mark_resolved g rid l) =
+    Some {| ft_gen := ft_gen f; ft_run := ft_run f; ft_scope := ft_scope f; ft_cause := ft_cause f;
+            ft_status := Resolved rid |} /\
+  length (mark_resolved g rid l) = length l.
+Proof.
+  unfold find_fault. induction l as [|x l IH]; intros f H; cbn in H; [discriminate|].
+  cbn [mark_resolved]. destruct (ft_gen x =? g) eqn:E.
+  - inversion H; subst. cbn. rewrite E. auto.
+  - cbn. rewrite E. destruct (IH f H) as [A B]. rewrite B. auto.
+Qed.
+
+Theorem recovery_head (r : rt S) g rid r' f k :
+  sorted hkey_cmp (heads r) -> sorted hkey_cmp (faulted_heads r) ->
+  find_fault g (faults r) = Some f -> ft_scope f = SHead k -> find hkey_cmp k (faulted_heads r) = Some g ->
+  resolve_fault S r g rid = ResOk r' ->
+  same_but_faults S r r' /\ rt_fault r' = rt_fault r /\ next_gen r' = next_gen r /\
+  find hkey_cmp k (faulted_heads r') = None /\
+  (forall k2, k2 <> k -> find hkey_cmp k2 (faulted_heads r') = find hkey_cmp k2 (faulted_heads r)) /\
+  (rt_fault r = None ->
+     (In k (runnable_keys S r') <->
+      exists h, find hkey_cmp k (heads r) = Some h /\ h_admitted h = true /\ h_paused h = false)) /\
+  (exists f', find_fault g (faults r') = Some f' /\ ft_status f' = Resolved rid /\ ft_scope f' = SHead k /\
+              ft_cause f' = ft_cause f) /\
+  length (faults r') = length (faults r).
+Proof.
+  intros Hs Hfs Hf Hsc Hq. unfold resolve_fault. rewrite Hf.
+  destruct (ft_status f); [|discriminate]. rewrite Hsc, Hq, N.eqb_refl.
+  intros H; inversion H; subst r'; clear H.
+  destruct (find_fault_mark g rid _ _ Hf) as [Hm Hl].
+  split; [unfold same_but_faults; cbn; auto|]. cbn.
+  split; [reflexivity|]. split; [reflexivity|].
+  assert (Hdel : find hkey_cmp k (del hkey_cmp k (faulted_heads r)) = None) by (apply find_del_same; auto; ord).
+  split; [exact Hdel|]. split; [intros k2 Hne; apply find_del_other; auto; ord|]. split.
+  - intros Hrf.
+    rewrite (runnable_spec _ k); [|exact Hs]. cbn. split.
+    + intros (_ & h & A & B & C & _). eauto.
+    + intros (h & A & B & C). split; [exact Hrf|]. exists h. auto.
+  - split; [|exact Hl]. eexists. split; [exact Hm|]. cbn. auto.
+Qed.
+
+Theorem recovery_runtime (r : rt S) g rid r' f :
+  find_fault g (faults r) = Some f -> ft_scope f = SRuntime -> rt_fault r = Some g ->
+  resolve_fault S r g rid = ResOk r' ->
+  same_but_faults S r r' /\ rt_fault r' = None /\ faulted_heads r' = faulted_heads r /\
+  length (faults r') = length (faults r).
+Proof.
+  intros Hf Hsc Hq. unfold resolve_fault. rewrite Hf.
+  destruct (ft_status f); [|discriminate]. rewrite Hsc, Hq, N.eqb_refl.
+  intros H; inversion H; subst r'; clear H.
+  destruct (find_fault_mark g rid _ _ Hf) as [Hm Hl].
+  split; [unfold same_but_faults; cbn; auto|]. cbn. auto.
+Qed.
+
+(* ------------------------------------------------------------------ well-formedness is an invariant of the API *)
+
+Definition wf_all (st : rt S * provmap) : Prop :=
+  wf (fst st) (snd st) /\ sorted hkey_cmp (faulted_heads (fst st)).
+
+Lemma witness_sorted c s : corr_sorted c -> corr_sorted (witness c s).
+Proof.
+  intros (A & B & C & D). unfold witness. destruct (mem sub_cmp s (witnessed c)); [unfold corr_sorted; auto|].
+  unfold corr_sorted; cbn. split; [apply set_sorted; auto; ord|]. split; [apply set_sorted; auto; ord|]. exact (conj C D).
+Qed.
+
+Lemma ingest_wf (r : rt S) p k id : wf_all (r, p) -> wf_all (fst (ingest S r k id), p).
+Proof.
+  unfold wf_all, wf, rt_sorted; cbn [fst snd]. intros [[(A & B & C) D] F]. unfold ingest.
+  destruct (find hkey_cmp k (heads r)); [|cbn [fst]; exact (conj (conj (conj A (conj B C)) D) F)].
+  destruct (committed_in S r k id); [cbn [fst]; exact (conj (conj (conj A (conj B C)) D) F)|].
+  destruct (mem N.compare id (h_pending h)); [cbn [fst]; exact (conj (conj (conj A (conj B C)) D) F)|].
+  cbn [fst]. split; [|exact F]. split; [|exact D]. cbn. split; [apply set_sorted; auto; ord|]. split; [exact B|].
+  apply witness_sorted; exact C.
+Qed.
+
+Lemma sorted_map_keys {V W} (g : V -> W) (m : list (N * V)) :
+  sorted N.compare m -> sorted N.compare (map (fun kv => (fst kv, g (snd kv))) m).
+Proof.
+  induction m as [|[k v] m IH]; cbn; auto. intros [Hlb Hs]. split; [|auto].
+  destruct m as [|[k2 v2] m2]; cbn in *; auto.
+Qed.
+
+Lemma record_fault_fh_sorted (r : rt S) run sc c r' :
+  record_fault S r run sc c = Some r' -> sorted hkey_cmp (faulted_heads r) -> sorted hkey_cmp (faulted_heads r').
+Proof.
+  unfold record_fault, record_head_fault, record_runtime_fault. destruct sc as [k2|]; intros H Hs.
+  - destruct (find hkey_cmp k2 (faulted_heads r)); [inversion H; subst; exact Hs|].
+    destruct (alloc_gen S r); inversion H; subst; cbn. apply set_sorted; auto; ord.
+  - destruct (rt_fault r); [inversion H; subst; exact Hs|].
+    destruct (alloc_gen S r); inversion H; subst; exact Hs.
+Qed.
+
+Lemma same_faults_wf (r r' : rt S) p : same_but_faults S r r' -> wf r p -> wf r' p.
+Proof.
+  intros (A & B & _ & C) [(H1 & H2 & H3) H4]. unfold wf, rt_sorted. rewrite A, B, C. auto.
+Qed.
+
+Theorem run_op_wf (st : rt S * provmap) (o : op) : wf_all st -> wf_all (fst (run_op S commit st o)).
+Proof.
+  destruct st as [r p]. intros Hw. assert (Hw' := Hw). unfold wf_all, wf, rt_sorted in Hw'; cbn [fst snd] in Hw'.
+  destruct Hw' as [[(A & B & C) D] F].
+  destruct o as [k id|k id t| |g rid|k b|]; cbn [run_op].
+  - pose proof (ingest_wf r p k id Hw) as H. destruct (ingest S r k id) as [r1 d]. exact H.
+  - assert (Hsub : wf_all (fst (submit S r k id), p)).
+    { unfold submit. destruct (find hkey_cmp k (heads r)); [|exact Hw].
+      destruct (committed_in S r k id); [exact Hw|].
+      destruct (mem sub_cmp (k, id) (witnessed (cor r))); [exact Hw|].
+      split; [|exact F]. split; [|exact D]. cbn. split; [exact A|]. split; [exact B|]. apply witness_sorted; exact C. }
+    destruct (submit S r k id) as [r1 d1]. cbn [fst] in Hsub.
+    assert (Hst : wf_all (fst (stage S r1 k id t), p)).
+    { unfold stage. destruct (negb (mem sub_cmp (k, id) (witnessed (cor r1)))); [exact Hsub|].
+      destruct (find hkey_cmp k (heads r1)); [|exact Hsub].
+      destruct (find sub_cmp (k, id) (staged (cor r1))); [destruct (n =? t); exact Hsub|].
+      pose proof (ingest_wf r1 p k id Hsub) as Hi. destruct (ingest S r1 k id) as [r2 d2]. cbn [fst] in Hi.
+      destruct d2; try exact Hi.
+      destruct Hi as [[(A2 & B2 & C2) D2] F2]. cbn [fst snd] in *.
+      split; [|exact F2]. split; [|exact D2]. cbn. split; [exact A2|]. split; [exact B2|].
+      destruct C2 as (X1 & X2 & X3 & X4). unfold corr_sorted; cbn. split; [exact X1|]. split; [exact X2|].
+      split; [apply set_sorted; auto; ord|exact X4]. }
+    destruct d1; try exact Hsub.
+    + destruct (stage S r1 k id t) as [r2 d2]. exact Hst.
+    + destruct (stage S r1 k id t) as [r2 d2]. exact Hst.
+  - destruct (super_tick S commit r p) as [[r' p'] out] eqn:E.
+    assert (Hgoal : wf_all (r', p')).
+    { destruct out as [recs|e|].
+      - destruct (super_tick_success r p r' p' recs (conj (conj A (conj B C)) D) E) as (_ & _ & _ & _ & _ & _ & _ & Q & _ & W).
+        split; [exact W|]. cbn. rewrite Q. exact F.
+      - destruct (super_tick_atomic r p r' p' (OErr e) (conj (conj A (conj B C)) D) E) as [-> [->|(run & sc & c & Hr)]];
+          try (intros; discriminate); [exact Hw|].
+        split; [eapply same_faults_wf; [eapply record_fault_same; eauto|exact (conj (conj A (conj B C)) D)]|].
+        cbn. eapply record_fault_fh_sorted; eauto.
+      - destruct (super_tick_atomic r p r' p' OPanic (conj (conj A (conj B C)) D) E) as [-> [->|(run & sc & c & Hr)]];
+          try (intros; discriminate); [exact Hw|].
+        split; [eapply same_faults_wf; [eapply record_fault_same; eauto|exact (conj (conj A (conj B C)) D)]|].
+        cbn. eapply record_fault_fh_sorted; eauto. }
+    destruct out; exact Hgoal.
+  - unfold resolve_fault. destruct (find_fault g (faults r)) as [f|]; [|exact Hw].
+    destruct (ft_status f); [|exact Hw]. cbn [fst snd].
+    split; [exact (conj (conj A (conj B C)) D)|]. cbn.
+    destruct (ft_scope f) as [k|]; [|exact F].
+    destruct (find hkey_cmp k (faulted_heads r)); [|exact F].
+    destruct (n =? g); [|exact F]. apply del_sorted; auto; ord.
+  - unfold set_eligibility. destruct (find hkey_cmp k (heads r)); [|exact Hw]. cbn [fst snd].
+    split; [|exact F]. split; [|exact D]. cbn. split; [apply set_sorted; auto; ord|auto].
+  - cbn [fst snd]. split; [|exact F]. split; [exact (conj A (conj B C))|].
+    cbn. exact (sorted_map_keys (fun _ => []) (fronts r) B).
+Qed.
+
+End PassLemmas.
+
+Arguments wf {S}. Arguments wf_all {S}. Arguments rt_sorted {S}. Arguments lsorted {S}. Arguments frame {S}.
+
+(* ------------------------------------------------------------------ statements in the form pinned by Props/C09.v *)
+
+Lemma pass_frame_explicit S (commit : S -> list N -> cres S) next keys (r : rt S) p :
+  wf r p -> (forall k, In k keys -> find hkey_cmp k (heads r) <> None) ->
+  match pass_loop S commit next keys {| ls_rt := r; ls_prov := p; ls_log := [] |} with
+  | LDone st _ | LFail st _ _ | LPanic st =>
+      (forall k, ~ In k keys -> find hkey_cmp k (heads (ls_rt st)) = find hkey_cmp k (heads r)) /\
+      (forall w, ~ In w (map wl_of keys) ->
+         find N.compare w (fronts (ls_rt st)) = find N.compare w (fronts r) /\
+         find N.compare w (ls_prov st) = find N.compare w p) /\
+      (forall w es, find N.compare w p = Some es -> exists ex, find N.compare w (ls_prov st) = Some (es ++ ex)) /\
+      gtick (ls_rt st) = gtick r /\ faults (ls_rt st) = faults r /\ faulted_heads (ls_rt st) = faulted_heads r /\
+      rt_fault (ls_rt st) = rt_fault r /\ next_gen (ls_rt st) = next_gen r /\
+      rollback (ls_log st) (cor (ls_rt st)) = cor r
+  | LOuter _ _ => False
+  end.
+Proof.
+  intros Hwf Hk.
+  pose proof (pass_loop_frame S commit next keys {| ls_rt := r; ls_prov := p; ls_log := [] |} Hwf Hk) as H.
+  destruct (pass_loop S commit next keys {| ls_rt := r; ls_prov := p; ls_log := [] |}) as [st recs|st k e|st|st e];
+    try exact H; destruct H as [F _];
+    (split; [exact (fr_heads _ _ _ _ F)|]; split; [intros w Hw; split; [exact (fr_fronts _ _ _ _ F w Hw)|exact (fr_prov _ _ _ _ F w Hw)]|];
+     split; [exact (fr_prov_ext _ _ _ _ F)|]; split; [exact (fr_gtick _ _ _ _ F)|];
+     destruct (fr_faults _ _ _ _ F) as (A1 & A2 & A3 & A4); split; [exact A1|]; split; [exact A2|]; split; [exact A3|];
+     split; [exact A4|]; exact (proj1 (fr_corr _ _ _ _ F))).
+Qed.
+
+Lemma canonical_order S (r : rt S) : sorted hkey_cmp (heads r) ->
+  StronglySorted hlt (runnable_keys S r) /\
+  (forall k, In k (runnable_keys S r) <->
+     rt_fault r = None /\ exists h, find hkey_cmp k (heads r) = Some h /\ h_admitted h = true /\ h_paused h = false /\
+                                    find hkey_cmp k (faulted_heads r) = None).
+Proof. intros Hs. split; [apply runnable_ascending; exact Hs|intros k; apply runnable_spec; exact Hs]. Qed.
+
+Lemma correlate_rollback k gt ta cid rdig batch c :
+  corr_sorted c ->
+  match correlate k gt ta cid rdig c [] batch with
+  | CorrOk c' log' | CorrMismatch c' log' => rollback log' c' = c /\ witnessed c' = witnessed c /\ staged c' = staged c
+  end.
+Proof.
+  intros Hs. pose proof (correlate_spec k gt ta cid rdig batch c [] Hs) as H.
+  destruct (correlate k gt ta cid rdig c [] batch); destruct H as (_ & A & B & C); auto.
+Qed.
+
+Lemma fold_set_sorted_gen {K V X} (cmp : K -> K -> comparison) (L : OrderLaws cmp) (f : X -> K) (g : X -> V) (l : list X) :
+  forall m, sorted cmp m -> sorted cmp (fold_left (fun m x => set cmp (f x) (g x) m) l m).
+Proof.
+  induction l as [|x l IH]; intros m Hs; cbn; auto. apply IH. apply set_sorted; auto; [exact (ol_eq _ L)|exact (ol_antisym _ L)].
+Qed.
+
+Lemma rt_init_wf S (s0 : S) worlds hs : wf_all (rt_init s0 worlds hs).
+Proof.
+  unfold wf_all, wf, rt_sorted, rt_init; cbn [fst snd heads fronts cor faulted_heads].
+  split; [split; [split; [|split]|]|].
+  - apply (fold_set_sorted_gen hkey_cmp hkey_order fst); exact I.
+  - apply (fold_set_sorted_gen N.compare N_order (fun w => w)); exact I.
+  - unfold corr_sorted; cbn. tauto.
+  - apply (fold_set_sorted_gen N.compare N_order (fun w => w)); exact I.
+  - exact I.
+Qed.
+
+Lemma api_preserves_wf S (commit : S -> list N -> cres S) : forall ops st,
+  wf_all st -> Forall (fun os => wf_all (snd os)) (run_ops S commit st ops).
+Proof.
+  induction ops as [|o ops IH]; intros st Hw; cbn [run_ops]; [constructor|].
+  pose proof (run_op_wf S commit st o Hw) as H1.
+  destruct (run_op S commit st o) as [st' out]. cbn [fst] in H1. constructor; [exact H1|apply IH; exact H1].
 Qed.
